@@ -43,6 +43,11 @@ type obs struct {
 
 func runCase(run *vh.Run, idx int, c Case) *obs {
 	ob := &obs{idx: idx, c: c}
+	if c.Overlap {
+		overlapCase(run, idx, c)
+		run.Count("refresh-overlap", false)
+		return ob
+	}
 	if c.NumSeed != 0 {
 		numbersCase(run, idx, c)
 		run.Count(fmt.Sprintf("numbers|%d", c.NumSeed), false)
@@ -463,6 +468,8 @@ func main() {
 		for i := 0; i < nn; i++ {
 			cases = append(cases, Case{Origin: "numbers", NumSeed: uint64(nr.Intn(1<<30)) + 1})
 		}
+		// the poller with a slow fetch overlapping a later one (refresh_overlap.go; about 2.5 s of waiting)
+		cases = append(cases, Case{Origin: "refresh-overlap", Overlap: true, Seed: uint64(nr.Intn(1<<30)) + 1})
 	}
 	var all []*obs
 	hangs := 0
